@@ -218,8 +218,8 @@ pub fn run_property(prop: &str) {
     }
 
     // levels 0..=min_bound always complete; deeper levels (up to `bound`) while time allows
-    let min_bound = run.pick(2usize, 3usize);
-    let bound = run.pick(5usize, 10usize);
+    let min_bound = run.pick(3usize, 5usize);
+    let bound = run.pick(6usize, 12usize);
     let cap_total = run.pick(400_000usize, 6_000_000usize);
     let time_cap_s = run.pick(40.0, 1200.0);
     let workers = vcommon::ncpu();
